@@ -252,11 +252,22 @@ func Worker(kind string, thIdx int, n int) {
 		return
 	}
 	r := mix(jitterSeed ^ mix(uint64(thIdx)+uint64(len(kind))<<8) ^ mix(h))
-	switch r % 4 {
-	case 0:
-		runtime.Gosched()
-	case 1:
-		time.Sleep(time.Duration(r>>8%200) * time.Microsecond)
+	if n > 1 {
+		// start of a worker of a parallel section: shuffle the arrival order
+		switch r % 4 {
+		case 0:
+			runtime.Gosched()
+		case 1, 2:
+			time.Sleep(time.Duration(r>>8%300) * time.Microsecond)
+		}
+	} else {
+		// inside a worker loop: mostly yields, rarely a short sleep (sleeps cost ~1 ms on some kernels)
+		switch {
+		case r%64 == 0:
+			time.Sleep(time.Duration(r>>8%100) * time.Microsecond)
+		case r%4 == 0:
+			runtime.Gosched()
+		}
 	}
 	if n > 1 {
 		workerMu.Lock()
